@@ -190,3 +190,31 @@ def tpl_superposition(ctx, fn, dim):
     pu, pl = m.pow(l + low, 2 * H), m.pow(low, 2 * H)
     ctx.ensure("S=(lup^2H S(lup)-llow^2H S(llow))/(lup^2H-llow^2H)",
                ctx.eq(got[0], (pu * up[0] - pl * lo_[0]) / (pu - pl)))
+
+
+@contract(P, "tpl_models.spectral_density/rescaled-lengths-as-in-correlation",
+          params=[{"cls": c, "dim": d, "low": lw} for c in ("TPLGaussian", "TPLExponential") for d in (1, 2, 3) for lw in ("zero", "positive")],
+          functions=["covmodel/tpl_models.py:<cls>.spectral_density"], timeout=60)
+def tpl_density(ctx, cls, dim, low):
+    """the TPL spectral density is the density of the documented model whose lengths are ALL divided
+    by the rescale factor (the same l_up/s, l_low/s that the documented correlation uses)"""
+    m = ctx.m
+    install_inc_gamma_stub()
+    l, s = ctx.real("len", lo=0.5, hi=2.0), ctx.real("resc", lo=0.5, hi=2.0)
+    H = ctx.real("hurst", lo=0.15, hi=0.95)
+    k = ctx.real("k", lo=1.5, hi=3.0)
+    ctx.require(ctx.And(ctx.gt(l, 0), ctx.gt(s, 0), ctx.gt(H, 0.1), ctx.lt(H, 1), ctx.gt(k, 0)))
+    if low == "zero":
+        ll = 0.0
+    else:
+        ll = ctx.real("len_low", lo=0.8, hi=2.0)
+        ctx.require(ctx.gt(ll / s, 1e-7))
+    mod = _q(getattr(gs, cls), dim=dim, len_scale=l, rescale=s, hurst=H, len_low=ll)
+    fn = sp.tpl_gau_spec_dens if cls == "TPLGaussian" else sp.tpl_exp_spec_dens
+    karr = np.array([k], dtype=object) if ctx.mode == "sym" else np.array([k])
+    if cls == "TPLGaussian":
+        for scale in ([l / s] if low == "zero" else [l / s + ll / s, ll / s]):
+            ctx.require(ctx.gt((k * scale / 2) ** 2, 0.1))      # one side of the series switch
+    got = mod.spectral_density(karr)
+    exp = fn(karr, dim, l / s, H, ll / s)
+    ctx.ensure("density=documented-density(l/s, l_low/s)", ctx.eq(got[0], exp[0]))
